@@ -30,10 +30,11 @@ type faultReader struct {
 	si       int
 	tripped  bool
 	seekable bool
+	oneShot  bool // fail once, then go on delivering the data
 }
 
 func (f *faultReader) Read(p []byte) (int, error) {
-	if f.failAt >= 0 && f.pos >= f.failAt {
+	if f.failAt >= 0 && f.pos >= f.failAt && !(f.oneShot && f.tripped) {
 		f.tripped = true
 		return 0, errInjected
 	}
@@ -55,7 +56,7 @@ func (f *faultReader) Read(p []byte) (int, error) {
 	if n > len(f.data)-f.pos {
 		n = len(f.data) - f.pos
 	}
-	if f.failAt >= 0 && n > f.failAt-f.pos {
+	if f.failAt >= 0 && !f.tripped && n > f.failAt-f.pos {
 		n = f.failAt - f.pos // partial read right before the failure
 	}
 	copy(p, f.data[f.pos:f.pos+n])
@@ -82,17 +83,18 @@ const (
 var rkNames = []string{"plain", "seekable", "bufio"}
 
 type readerCfg struct {
-	kind  int
-	auto  bool
-	chunk int
+	kind    int
+	auto    bool
+	chunk   int
+	oneShot bool
 }
 
 func (c readerCfg) String() string {
-	return fmt.Sprintf("%s reader, auto-detect=%v, chunk=%d", rkNames[c.kind], c.auto, c.chunk)
+	return fmt.Sprintf("%s reader, auto-detect=%v, chunk=%d, one-shot failure=%v", rkNames[c.kind], c.auto, c.chunk, c.oneShot)
 }
 
 func (c readerCfg) build(data []byte, failAt int) (io.Reader, *faultReader, []func(*astits.Demuxer)) {
-	fr := &faultReader{data: data, failAt: failAt, chunk: c.chunk}
+	fr := &faultReader{data: data, failAt: failAt, chunk: c.chunk, oneShot: c.oneShot}
 	var r io.Reader = fr
 	switch c.kind {
 	case rkSeek:
@@ -147,7 +149,7 @@ func c18Reader(data []byte, c readerCfg, failAt int, clean []string) string {
 }
 
 func TestC18Reader(t *testing.T) {
-	rec := obs.NewRecorder("C18", "reader", "rapid: well-formed streams (reference multiplexer, >= 3 packets) x reader kinds {plain, seekable, bufio} x {explicit packet size, auto-detection} x read chunk sizes {unlimited, 1..400}; the reader fails with a sentinel error at EVERY byte offset of the stream (exhaustive per stream and configuration, with a partial read right before the failure); oracle: the call during which the read fails returns an error wrapping the sentinel (errors.Is), never ErrNoMorePackets, never a panic, and the items delivered before are a prefix of the fault-free output of the same configuration; non-trivial = every case (all offsets); distinct by stream bytes + configuration")
+	rec := obs.NewRecorder("C18", "reader", "rapid: well-formed streams (reference multiplexer, >= 3 packets) x reader kinds {plain, seekable, bufio} x {explicit packet size, auto-detection} x read chunk sizes {unlimited, 1..400} x {the reader keeps failing, it fails once and then goes on}; the reader fails with a sentinel error at EVERY byte offset of the stream (exhaustive per stream and configuration, with a partial read right before the failure); oracle: the call during which the read fails returns an error wrapping the sentinel (errors.Is), never ErrNoMorePackets, never a panic, and the items delivered before are a prefix of the fault-free output of the same configuration; non-trivial = every case (all offsets); distinct by stream bytes + configuration")
 	defer rec.Flush()
 	rapid.Check(t, func(t *rapid.T) {
 		o := defaultStreamOpts()
@@ -163,7 +165,7 @@ func TestC18Reader(t *testing.T) {
 		if len(data) > 188*40 {
 			data = data[:188*40]
 		}
-		c := readerCfg{kind: gen.Uniform(t, 3, "rk"), auto: gen.Bool(t, "auto")}
+		c := readerCfg{kind: gen.Uniform(t, 3, "rk"), auto: gen.Bool(t, "auto"), oneShot: gen.Bool(t, "oneshot")}
 		switch gen.Uniform(t, 4, "chk") {
 		case 0:
 			c.chunk = 0
@@ -198,9 +200,13 @@ func TestC18Reader(t *testing.T) {
 		if c.auto {
 			rec.Class("auto_detect")
 		}
+		if c.oneShot {
+			rec.Class("one_shot_failure")
+		}
 		h := obs.NewHasher()
 		h.Bytes(data)
 		h.Int(int64(c.kind*2 + c.chunk*8))
+		h.Int(int64(map[bool]int{true: 1}[c.oneShot]))
 		if c.auto {
 			h.Int(1)
 		}
